@@ -51,6 +51,8 @@ func structFields(name string) []sfield {
 // goTyX: goTy extended by strings, slices, structs and function-typed fields
 func goTyX(e ast.Expr) gty {
 	switch x := e.(type) {
+	case *ast.Ellipsis:
+		return "[]" + goTyX(x.Elt) // a variadic parameter is a slice
 	case *ast.ArrayType:
 		if x.Len == nil {
 			return "[]" + goTyX(x.Elt)
@@ -429,6 +431,10 @@ func (m *imp) expr(e ast.Expr, want gty) (string, gty) {
 	case *ast.CallExpr:
 		if tmp, ok := m.callTmp[x]; ok {
 			return tmp, m.t.env[tmp]
+		}
+		// []T(nil): the empty slice
+		if at, ok := x.Fun.(*ast.ArrayType); ok && at.Len == nil && len(x.Args) == 1 && exprText(m.p.fset, x.Args[0]) == "nil" {
+			return "[]", goTyX(at)
 		}
 		// a call of a function value (a parameter or a field of function type): pure
 		if fs, fty := m.funcValue(x.Fun); fs != "" {
